@@ -282,6 +282,139 @@ Proof.
   symmetry. exact Ev.
 Qed.
 
+(** ** Folded blocks with blank lines *)
+
+Lemma mem_char_sdrop c : forall k s, mem_char c s = false -> mem_char c (sdrop k s) = false.
+Proof.
+  induction k as [|k IH]; intros s H; [exact H|]. destruct s as [|x s]; [reflexivity|].
+  cbn [sdrop]. apply IH. cbn [mem_char] in H. apply orb_false_iff in H. apply H.
+Qed.
+
+(** a blank line (spaces only) on which the needed byte is not a space: nothing matches *)
+Lemma blank_line_res n minCol need rest :
+  1 <= minCol -> Ascii.eqb need space = false ->
+  (if slen (spaces n) =? 0 then Some (false, Some (need, rest))
+   else match adjust_col (spaces n) minCol need rest with
+        | None => None
+        | Some col2 =>
+            if false && negb (no_backslash_b (sdrop (Z.to_nat (col2 - 1)) (spaces n))) then None
+            else Some (gscan (sdrop (Z.to_nat (col2 - 1)) (spaces n)) need rest)
+        end) = Some (false, Some (need, rest)).
+Proof.
+  intros Hm Hns. destruct (slen (spaces n) =? 0) eqn:E0; [reflexivity|].
+  apply Z.eqb_neq in E0. pose proof (slen_nonneg (spaces n)).
+  unfold adjust_col. destruct (Z.min (slen (spaces n)) minCol <=? 0) eqn:E1; [apply Z.leb_le in E1; lia|].
+  cbn [andb]. f_equal. apply gscan_absent. apply mem_char_sdrop. apply mem_char_spaces. exact Hns.
+Qed.
+
+Lemma fold_items_lay indent minCol after tail : forall items pb c W',
+  minCol - 1 <= Z.of_nat indent -> 1 <= minCol ->
+  forallb no_newline_b after = true ->
+  fold_items_ok items = true ->
+  String c W' = vsuffix_fold pb items tail ->
+  match pb, items with
+  | true, Body _ :: _ =>
+      lay_ok false (map (item_line indent) items ++ after) minCol minCol None c W' = true
+  | _, _ =>
+      is_fold_char c = true /\
+      match W' with
+      | EmptyString => c = newline
+      | String n' r' => lay_ok false (map (item_line indent) items ++ after) minCol minCol (Some c) n' r' = true
+      end
+  end.
+Proof.
+  induction items as [|it items IH]; intros pb c W' Hi Hm Haf Hok E.
+  - (* only the chomping tail is left *)
+    cbn [vsuffix_fold] in E. destruct tail as [|t]; [discriminate|]. cbn [repeat_char] in E. inversion E; subst c W'.
+    assert (G : is_fold_char newline = true /\
+                match repeat_char newline t with
+                | EmptyString => newline = newline
+                | String n' r' => lay_ok false (map (item_line indent) [] ++ after) minCol minCol (Some newline) n' r' = true
+                end).
+    { split; [reflexivity|]. destruct t as [|t]; [reflexivity|]. cbn [repeat_char map app].
+      apply tail_ok; try assumption. exact (repeat_char_newlines (S t)). }
+    destruct pb; exact G.
+  - destruct it as [b|n].
+    + (* a content line *)
+      cbn [fold_items_ok] in Hok. apply andb_true_iff in Hok. destruct Hok as [Hok Hr].
+      apply andb_true_iff in Hok. destruct Hok as [Hb Hnf].
+      pose proof (has_nonspace_nonempty b Hb) as Hne. destruct b as [|n0 r0]; [contradiction|].
+      set (V := vsuffix_fold false items tail) in *.
+      assert (Hline : forall pending, lay_ok false (map (item_line indent) (Body (String n0 r0) :: items) ++ after)
+                                        minCol minCol pending n0 (r0 ++ V) = true).
+      { intros pending. cbn [map app item_line].
+        destruct (adjust_content indent (String n0 r0) V minCol n0 (r0 ++ V)%string Hb Hi Hm eq_refl) as [Ha Hd].
+        eapply segment_line_ok with (b := String n0 r0) (W := V); [discriminate|reflexivity|exact Ha|exact Hd|].
+        destruct V as [|c2 W2] eqn:Ev; [exact I|].
+        specialize (IH false c2 W2 Hi Hm Haf Hr). rewrite <- Ev in IH. specialize (IH eq_refl).
+        destruct items; exact IH. }
+      cbn [vsuffix_fold] in E. fold V in E. destruct pb.
+      * cbn [append] in E. inversion E; subst c W'. apply Hline.
+      * cbn [append] in E. inversion E; subst c W'. split; [reflexivity|]. apply Hline.
+    + (* a blank line *)
+      cbn [fold_items_ok] in Hok. apply andb_true_iff in Hok. destruct Hok as [Hnl Hr].
+      cbn [vsuffix_fold] in E. inversion E; subst c W'.
+      assert (G : is_fold_char newline = true /\
+                  match vsuffix_fold true items tail with
+                  | EmptyString => newline = newline
+                  | String n' r' => lay_ok false (map (item_line indent) (Blank n :: items) ++ after) minCol minCol (Some newline) n' r' = true
+                  end).
+      { split; [reflexivity|].
+        destruct items as [|it2 items2]; [discriminate|].
+        remember (vsuffix_fold true (it2 :: items2) tail) as V eqn:Ev.
+        destruct V as [|c2 W2]; [reflexivity|].
+        pose proof (IH true c2 W2 Hi Hm Haf Hr Ev) as IH2.
+        cbn [map app item_line]. cbn [lay_ok].
+        destruct it2 as [b2|m2].
+        - (* the next line is a content line: its first byte is not found on the blank line, nothing is consumed *)
+          cbn [fold_items_ok] in Hr. apply andb_true_iff in Hr. destruct Hr as [Hr1 _].
+          apply andb_true_iff in Hr1. destruct Hr1 as [Hb2 Hnf2]. apply negb_true_iff in Hnf2.
+          pose proof (has_nonspace_nonempty b2 Hb2) as Hne2. destruct b2 as [|x2 y2]; [contradiction|].
+          cbn [vsuffix_fold append] in Ev. inversion Ev; subst c2 W2.
+          cbn [starts_with_fold_char] in Hnf2.
+          assert (Hx : Ascii.eqb x2 space = false).
+          { unfold is_fold_char in Hnf2. apply orb_false_iff in Hnf2. apply Hnf2. }
+          rewrite (blank_line_res n minCol x2 _ Hm Hx). rewrite Hnf2. exact IH2.
+        - (* another blank line follows: this line's break stands for the next line break of the value *)
+          cbn [vsuffix_fold] in Ev. inversion Ev; subst c2 W2.
+          assert (Hres : (if slen (spaces n) =? 0 then Some (false, Some (newline, vsuffix_fold true items2 tail))
+                          else match adjust_col (spaces n) minCol newline (vsuffix_fold true items2 tail) with
+                               | None => None
+                               | Some col2 =>
+                                   if false && negb (no_backslash_b (sdrop (Z.to_nat (col2 - 1)) (spaces n))) then None
+                                   else Some (gscan (sdrop (Z.to_nat (col2 - 1)) (spaces n)) newline (vsuffix_fold true items2 tail))
+                               end) = Some (false, Some (newline, vsuffix_fold true items2 tail))).
+          { apply blank_line_res; [exact Hm|reflexivity]. }
+          rewrite Hres. replace (is_fold_char newline) with true by reflexivity.
+          destruct IH2 as [_ IH2]. destruct (vsuffix_fold true items2 tail) as [|n' r']; [reflexivity|exact IH2]. }
+      destruct pb; exact G.
+Qed.
+
+Theorem fold_node_ok : forall b minCol,
+  fold_ok b minCol = true ->
+  node_ok (bl_lines b) (bl_node_fold b) minCol = true.
+Proof.
+  intros b minCol H. unfold fold_ok in H.
+  repeat (apply andb_true_iff in H; destruct H as [H ?]).
+  rename H into Hnn, H0 into Haf, H1 into Hitems, H2 into Hm, H3 into Hi, H4 into Hnf, H5 into Hns.
+  apply Z.leb_le in Hm. apply Z.leb_le in Hi.
+  pose proof (has_nonspace_nonempty _ Hns) as Hne.
+  unfold node_ok, bl_node_fold. cbn [sn_value sn_line sn_col sn_block sn_anchor sn_dq].
+  unfold bl_value_fold in *. destruct (bl_first b) as [|f fr] eqn:Ef; [contradiction|]. cbn [append] in *.
+  rewrite Hnn. cbn [andb].
+  replace (0 <=? Z.of_nat (List.length (bl_pre b)) + 1) with true by (symmetry; apply Z.leb_le; lia).
+  cbn [andb]. unfold bl_lines.
+  replace (Z.to_nat (Z.of_nat (List.length (bl_pre b)) + 1)) with (S (List.length (bl_pre b))) by lia.
+  rewrite skipn_app_succ. rewrite Ef.
+  set (V := vsuffix_fold false (bl_items b) (bl_tail b)).
+  assert (Hns' : has_nonspace (String f fr) = true) by exact Hns.
+  destruct (adjust_content (bl_indent b) (String f fr) V minCol f (fr ++ V)%string Hns' Hi Hm eq_refl) as [Ha Hdc].
+  eapply segment_line_ok with (b := String f fr) (W := V); [discriminate|reflexivity|exact Ha|exact Hdc|].
+  destruct V as [|c2 W2] eqn:Ev; [exact I|].
+  pose proof (fold_items_lay (bl_indent b) minCol (bl_after b) (bl_tail b) (bl_items b) false c2 W2 Hi Hm Haf Hitems) as HL.
+  unfold V in Ev. rewrite <- Ev in HL. specialize (HL eq_refl). destruct (bl_items b); exact HL.
+Qed.
+
 (** ** Multi-line plain scalars *)
 
 Lemma pm_more_ok minCol after : forall more c W',
